@@ -1682,6 +1682,61 @@ package mcp
 //@   modifies *
 //@   loop 1: invariant @still-decoding local(result) != nil
 
+// No-panic sweep over the SDK's own decoders (C19: decoding never panics on arbitrary bytes): whatever bytes or wire
+// structs they are given, they return a value or an error.
+//@ func (*InputResponseMap).UnmarshalJSON [C19]
+//@   nopanic
+//@   requires m != nil   // encoding/json calls UnmarshalJSON on an allocated value
+//@   modifies *
+//@ func unmarshalInputResponse [C19]
+//@   nopanic
+//@   modifies *
+//@ func (*CallToolResult).UnmarshalJSON [C19]
+//@   nopanic
+//@   requires x != nil   // encoding/json calls UnmarshalJSON on an allocated value
+//@   modifies *
+//@ func (*CompleteReference).UnmarshalJSON [C19]
+//@   nopanic
+//@   requires r != nil   // encoding/json calls UnmarshalJSON on an allocated value
+//@   modifies *
+//@ func (*SamplingMessageV2).UnmarshalJSON [C19]
+//@   nopanic
+//@   requires m != nil   // encoding/json calls UnmarshalJSON on an allocated value
+//@   modifies *
+//@ func (*CreateMessageResult).UnmarshalJSON [C19]
+//@   nopanic
+//@   requires r != nil   // encoding/json calls UnmarshalJSON on an allocated value
+//@   modifies *
+//@ func (*CreateMessageWithToolsResult).UnmarshalJSON [C19]
+//@   nopanic
+//@   requires r != nil   // encoding/json calls UnmarshalJSON on an allocated value
+//@   modifies *
+//@ func (*GetPromptResult).UnmarshalJSON [C19]
+//@   nopanic
+//@   requires x != nil   // encoding/json calls UnmarshalJSON on an allocated value
+//@   modifies *
+//@ func (*PromptMessage).UnmarshalJSON [C19]
+//@   nopanic
+//@   requires m != nil   // encoding/json calls UnmarshalJSON on an allocated value
+//@   modifies *
+//@ func (*ReadResourceResult).UnmarshalJSON [C19]
+//@   nopanic
+//@   requires x != nil   // encoding/json calls UnmarshalJSON on an allocated value
+//@   modifies *
+//@ func (*SamplingMessage).UnmarshalJSON [C19]
+//@   nopanic
+//@   requires m != nil   // encoding/json calls UnmarshalJSON on an allocated value
+//@   modifies *
+//@ func unmarshalContent [C19]
+//@   nopanic
+//@   modifies *
+//@ func contentsFromWire [C19]
+//@   nopanic
+//@   modifies *
+//@ func contentFromWire [C19]
+//@   nopanic
+//@   modifies *
+
 // readBatch (C19: decoding never panics on arbitrary bytes): whatever the payload - empty, blank, truncated, not JSON
 // at all - the function returns (messages or an error); a batch has exactly one decoded message per element, in
 // order, and a decoding error of any element fails the whole batch.
